@@ -8,6 +8,8 @@
 (*   SQ '   DQ "   BSL \   DOL $   BT `   SP space   LF newline   STAR *   SEMI ;   AMP &   PIPE |   LP (          *)
 (*   LB {   RB }   BANG !   HASH #   TILDE ~   a                    -- the data alphabet (items, queries)          *)
 (*   PLUS +  MINUS -  DOT .  COLON :  q n s r f  0..9                -- additionally needed to write placeholders  *)
+(*   US _   EQ =   e x p o t                                        -- environment entries, the word `export`      *)
+(*   NUL (the byte 0: print separator of --print0)   FILE (the path of one temporary file, see section 5)          *)
 (* Function-shaped module: no variables.  MC_Shell.tla / MC_ShellExpand.tla hold the state machines that           *)
 (* enumerate strings, templates and selection states; Judge_Shell.tla evaluates records of real executions.        *)
 EXTENDS Integers, Sequences, FiniteSets, SequencesExt, TLC
@@ -16,7 +18,9 @@ DataSyms  == {"SQ", "DQ", "BSL", "DOL", "BT", "SP", "LF", "STAR", "SEMI", "AMP",
               "BANG", "HASH", "TILDE", "a"}
 DigitSyms == {"0", "1", "2", "3", "4", "5", "6", "7", "8", "9"}
 TemplSyms == {"PLUS", "MINUS", "DOT", "COLON", "q", "n", "s", "r", "f"} \cup DigitSyms
-AllSyms   == DataSyms \cup TemplSyms
+EnvSyms   == {"US", "EQ", "e", "x", "p", "o", "t"}
+FileSyms  == {"NUL", "FILE"}
+AllSyms   == DataSyms \cup TemplSyms \cup EnvSyms \cup FileSyms
 
 Cat(seqs) == FlattenSeq(seqs)
 RECURSIVE JoinWith(_, _)
@@ -181,9 +185,43 @@ ParseRange(x) ==
             ELSE IF IsNum(l) /\ IsNum(r) /\ NumVal(l) # 0 /\ NumVal(r) # 0 /\ ~(NumVal(l) < 0 /\ NumVal(r) > 0)
                  THEN [ok |-> TRUE, b |-> NumVal(l), e |-> NumVal(r)] ELSE BadRange
 
+(* 3b. --delimiter.  The fields of an ITEM are cut with the item delimiter (man fzf, -d / --delimiter: "Field      *)
+(* delimiter regex for --nth, --with-nth, and field index expressions (default: AWK-style)").  The words of the     *)
+(* QUERY are not fields of an item: {q:N} always means the N-th blank-separated word of the query ("{q} can         *)
+(* contain field index expressions"; CHANGELOG 0.59: "rg_pat={q:1}  # The first word is passed to ripgrep,           *)
+(* fzf_pat={q:2..}  # The rest are passed to fzf"), whatever --delimiter says.  Both live in this one model, so a    *)
+(* template that mixes {2} and {q:2} under a non-default delimiter has one meaning.                                  *)
+(* A delimiter: [kind, pat] - "awk" (default), "str" (pat = the literal string), "cls" (a regular expression that    *)
+(* is one bracket expression over the symbols of pat, e.g. [:;]).  The full menu of regular expressions and the      *)
+(* non-ASCII delimiters belong to C10 (FzfFields); these three kinds are the three code paths of Tokenize.           *)
+AwkDelim    == [kind |-> "awk", pat |-> <<>>]
+StrDelim(p) == [kind |-> "str", pat |-> p]
+ClsDelim(p) == [kind |-> "cls", pat |-> p]
+HasAt(s, i, p) == /\ i >= 1 /\ i + Len(p) - 1 <= Len(s)
+                  /\ \A k \in 1..Len(p) : s[i + k - 1] = p[k]
+(* length of the delimiter occurrence that starts at position i; 0 = none there *)
+DelimLenAt(d, s, i) == IF d.kind = "str" THEN (IF HasAt(s, i, d.pat) THEN Len(d.pat) ELSE 0)
+                       ELSE IF \E k \in 1..Len(d.pat) : s[i] = d.pat[k] THEN 1 ELSE 0
+(* DOCUMENTED: the line is cut after every delimiter occurrence, fields keep their trailing delimiter.               *)
+(* CODE-DERIVED: a literal delimiter at the very end of the line is followed by one more, empty, field               *)
+(* (strings.SplitAfter), a regex delimiter is not; the empty line has one empty field under a literal delimiter.     *)
+RECURSIVE Cut(_, _, _, _)
+Cut(d, s, i, b) ==       \* b = start of the field being scanned, i = scan position
+    IF i > Len(s) THEN (IF b <= Len(s) \/ d.kind = "str" THEN <<SubSeq(s, b, Len(s))>> ELSE <<>>)
+    ELSE LET n == DelimLenAt(d, s, i) IN
+         IF n > 0 THEN <<SubSeq(s, b, i + n - 1)>> \o Cut(d, s, i + n, i + n)
+         ELSE Cut(d, s, i + 1, b)
+FieldTokens(s, d) == IF d.kind = "awk" THEN AwkTokens(s) ELSE Cut(d, s, 1, 1)
+(* "the trailing delimiter is stripped" from what a field index expression selects: one occurrence, at the very end  *)
+StripDelim(s, d) ==
+    IF d.kind = "str" THEN (IF Len(s) >= Len(d.pat) /\ HasAt(s, Len(s) - Len(d.pat) + 1, d.pat)
+                            THEN SubSeq(s, 1, Len(s) - Len(d.pat)) ELSE s)
+    ELSE IF d.kind = "cls" THEN (IF s # <<>> /\ DelimLenAt(d, s, Len(s)) = 1 THEN SubSeq(s, 1, Len(s) - 1) ELSE s)
+    ELSE s
+
 (* the text a range selects from a line: the chosen tokens, concatenated *)
-RangeText(line, rng) ==
-    LET toks == AwkTokens(line)
+RangeTextD(line, rng, d) ==
+    LET toks == FieldTokens(line, d)
         n    == Len(toks)
         Abs(i) == IF i < 0 THEN i + n + 1 ELSE i
         b    == IF rng.b = 0 THEN 1 ELSE Abs(rng.b)
@@ -191,8 +229,15 @@ RangeText(line, rng) ==
         lo   == IF b < 1 THEN 1 ELSE b
         hi   == IF e > n THEN n ELSE e
     IN IF lo > hi THEN <<>> ELSE Cat(SubSeq(toks, lo, hi))
+RangeText(line, rng) == RangeTextD(line, rng, AwkDelim)
 (* "leading and trailing whitespace is stripped from the replacement string. To preserve the whitespace, use the s flag" *)
+(* words of the query: AWK style, always *)
 FieldText(line, rng, preserve) == IF preserve THEN RangeText(line, rng) ELSE TrimSpace(RangeText(line, rng))
+(* fields of an item: the item delimiter; CODE-DERIVED order: the trailing delimiter goes first, then the white space *)
+ItemFieldText(line, rng, preserve, d) ==
+    LET x == StripDelim(RangeTextD(line, rng, d), d) IN IF preserve THEN x ELSE TrimSpace(x)
+(* the two agree where they must: without --delimiter {N} of a line is what {q:N} of the same text is *)
+AwkFieldsAgree(line, rng, preserve) == ItemFieldText(line, rng, preserve, AwkDelim) = FieldText(line, rng, preserve)
 
 -------------------------------------------------------------------------------
 (* 4. Templates.  A template is raw text; Scan cuts it into pieces the way the placeholder pattern does:           *)
@@ -262,6 +307,8 @@ TInfo(t) == LET ps  == Scan(t)
 (*   cur    0 (no line: the list is empty) or the position of the current line                                      *)
 (*   sel    positions of the selected lines, in the order they were selected                                        *)
 (*   query  the query string          fp  the action forces {+} semantics for every placeholder (execute-multi)     *)
+(*   delim  the item delimiter (--delimiter, section 3b)                                                            *)
+(*   sep    the print separator: "LF", or "NUL" under --print0 (CODE-DERIVED: --read0 alone leaves it at "LF")       *)
 (* Operators ending in I take a scanned template (TInfo).                                                           *)
 NoLine == [text |-> <<>>, idx |-> -1]           \* CODE-DERIVED: stands in for the current line when there is none
 (* buildPlusList.  Documented part: {} is the current line, {+} the selected lines or the current line if nothing   *)
@@ -273,23 +320,57 @@ CurList(ti, st)  == IF st.cur # 0 THEN <<st.items[st.cur]>> ELSE IF SpecialI(ti,
 PlusList(ti, st) == IF st.sel # <<>> THEN [i \in 1..Len(st.sel) |-> st.items[st.sel[i]]] ELSE CurList(ti, st)
 LinesFor(p, ti, st) == IF p.plus \/ st.fp THEN PlusList(ti, st) ELSE CurList(ti, st)
 
-(* the original texts a placeholder denotes: one per line ({q}: exactly one, the query) *)
-LineMeaning(p, line) == IF p.kind = "item"
-                        THEN IF p.number THEN (IF line.idx < 0 THEN <<>> ELSE Digits(line.idx)) ELSE line.text
-                        ELSE FieldText(line.text, p.rng, p.preserve)
+(* the original texts a placeholder denotes: one per line ({q} / {q:N}: exactly one, from the query).  The fields   *)
+(* of a line are cut with the item delimiter, the words of the query at blanks (section 3b).                         *)
+LineMeaning(p, line, d) == IF p.kind = "item"
+                           THEN IF p.number THEN (IF line.idx < 0 THEN <<>> ELSE Digits(line.idx)) ELSE line.text
+                           ELSE ItemFieldText(line.text, p.rng, p.preserve, d)
 Meaning(p, ti, st) == CASE p.kind = "query"  -> <<st.query>>
                         [] p.kind = "qfield" -> <<FieldText(st.query, p.rng, p.preserve)>>
-                        [] OTHER -> LET ls == LinesFor(p, ti, st) IN [i \in 1..Len(ls) |-> LineMeaning(p, ls[i])]
-(* how one original text is written into the command line *)
+                        [] OTHER -> LET ls == LinesFor(p, ti, st) IN [i \in 1..Len(ls) |-> LineMeaning(p, ls[i], st.delim)]
+(* how one original text is written into the command line (or, for a file placeholder, into the file) *)
 Written(p, x, q(_)) == IF p.kind \in {"query", "qfield"} THEN q(x)
                        ELSE IF p.kind = "item" /\ p.number THEN (IF x = <<>> THEN <<"SQ", "SQ">> ELSE x)   \* the ordinal, bare
-                       ELSE IF p.raw \/ p.file THEN x            \* {r}: documented as unquoted; {f} is out of scope
+                       ELSE IF p.raw \/ p.file THEN x            \* {r}: documented as unquoted; {f}: the record in the file
                        ELSE q(x)
+
+(* 5b. File placeholders ({f} {+f} {+f2} {sf1..} {nf} {+nf} ...).  man fzf: "A placeholder expression with f flag  *)
+(* is replaced to the path of a temporary file that holds the evaluated list."  The list: one RECORD per line the     *)
+(* placeholder stands for - the current line, or every selected line in selection order - and every record is         *)
+(* TERMINATED by the print separator.  The separator is a terminator, not a "make sure the file ends with one"         *)
+(* nicety: k lines give k terminators, also when a record is empty ({+f2} of a line with one field, an empty line)    *)
+(* or itself ends with the separator character (a --read0 line that ends in a line feed).                             *)
+(* In the expansion the path is ONE symbol, FILE: its text is chosen by the operating system (os.CreateTemp under     *)
+(* $TMPDIR), not by the input.  CODE-DERIVED: the path is written bare, not quoted; the shell-level reading below     *)
+(* (FILE is an ordinary character of a word) therefore assumes a temporary directory whose name is inert.             *)
+IsFilePh(p) == p.file /\ p.kind \in {"item", "field"}
+TerminateEach(recs, sep) == Cat([i \in 1..Len(recs) |-> recs[i] \o <<sep>>])
+FileRecords(p, ti, st) == LET m == Meaning(p, ti, st) IN [i \in 1..Len(m) |-> Written(p, m[i], Quote)]
+FileContent(p, ti, st) == TerminateEach(FileRecords(p, ti, st), st.sep)
+(* NOT the design - what "join with the separator and make sure the text ends with one" would give (MC_ShellExpand     *)
+(* shows that it loses records: FilesByJoinLoseRecords) *)
+JoinEnsureTrailing(recs, sep) == LET j == JoinWith(recs, <<sep>>)
+                                 IN IF j # <<>> /\ j[Len(j)] = sep THEN j ELSE j \o <<sep>>
+(* reading a file of terminated records back: the records, and what is left over after the last terminator *)
+RECURSIVE ReadRecordsFrom(_, _, _, _)
+ReadRecordsFrom(x, sep, i, b) == IF i > Len(x) THEN [recs |-> <<>>, rest |-> SubSeq(x, b, Len(x))]
+                                 ELSE IF x[i] = sep
+                                      THEN LET r == ReadRecordsFrom(x, sep, i + 1, i + 1)
+                                           IN [recs |-> <<SubSeq(x, b, i - 1)>> \o r.recs, rest |-> r.rest]
+                                      ELSE ReadRecordsFrom(x, sep, i + 1, b)
+ReadRecords(x, sep) == ReadRecordsFrom(x, sep, 1, 1)
+CountSym(x, c) == Len(SelectSeq(x, LAMBDA y : y = c))
+(* the files of an expansion, in the order their placeholders stand in the template *)
+FilesI(ti, st) == LET fps == SelectSeq(ti.ps, LAMBDA pc : pc.type = "ph" /\ pc.ph.kind # "bad" /\ IsFilePh(pc.ph))
+                  IN [k \in 1..Len(fps) |-> FileContent(fps[k].ph, ti, st)]
+
 ExpandPiece(pc, ti, st, q(_)) ==
     IF pc.type # "ph" THEN pc.text
     ELSE IF pc.ph.kind = "bad" THEN pc.ph.stripped
+    ELSE IF IsFilePh(pc.ph) THEN <<"FILE">>
     ELSE LET m == Meaning(pc.ph, ti, st) IN JoinWith([i \in 1..Len(m) |-> Written(pc.ph, m[i], q)], <<"SP">>)
 ExpandI(ti, st, q(_)) == Cat([i \in 1..Len(ti.ps) |-> ExpandPiece(ti.ps[i], ti, st, q)])
+Files(t, st) == FilesI(TInfo(t), st)
 Valid(t, st)      == ValidI(TInfo(t), st)
 Expand(t, st)     == ExpandI(TInfo(t), st, Quote)          \* the executor's style is POSIX (section 1b)
 ExpandFish(t, st) == ExpandI(TInfo(t), st, QuoteFish)      \* the executor's style is fish
@@ -307,8 +388,9 @@ WantStep(ti, st, ls, pc) ==
     IF ls.mode \in {"HAZ", "NA"} THEN ls
     ELSE IF pc.type # "ph" THEN LexRun(ls, pc.text)
     ELSE IF pc.ph.kind = "bad" THEN LexRun(ls, pc.ph.stripped)
-    ELSE IF ls.mode # "U" \/ ((pc.ph.raw \/ pc.ph.file) /\ pc.ph.kind \in {"item", "field"} /\ ~pc.ph.number)
+    ELSE IF ls.mode # "U" \/ (pc.ph.raw /\ ~pc.ph.file /\ pc.ph.kind \in {"item", "field"} /\ ~pc.ph.number)
          THEN Mode(ls, "NA")
+    ELSE IF IsFilePh(pc.ph) THEN AddWords(ls, <<<<"FILE">>>>)         \* the path: one word part (5b)
     ELSE LET m == Meaning(pc.ph, ti, st) IN IF m = <<>> THEN ls ELSE AddWords(ls, m)
 WantI(ti, st) == LexDone(FoldLeft(LAMBDA ls, pc : WantStep(ti, st, ls, pc), LexInit, ti.ps))
 Want(t, st) == WantI(TInfo(t), st)
@@ -321,6 +403,23 @@ ExpansionReadsBack(t, st) == ExpansionReadsBackI(TInfo(t), st)
 UnescapedI(ti) == Cat([i \in 1..Len(ti.ps) |-> ti.ps[i].text])
 EscapedStayLiteralI(ti, st) == ~ti.slot => ExpandI(ti, st, Quote) = UnescapedI(ti)
 EscapedStayLiteral(t, st) == EscapedStayLiteralI(TInfo(t), st)
+(* C12, file placeholders (5b): every record of every file is terminated - k lines give k terminators on top of    *)
+(* those the records contain, the file ends with a terminator, and when no record contains the separator character   *)
+(* the file reads back as exactly the original texts, one record per line.                                            *)
+RecordsReadBack(recs, content, sep) ==
+    /\ CountSym(content, sep) = Len(recs) + FoldLeft(LAMBDA n, r : n + CountSym(r, sep), 0, recs)
+    /\ recs # <<>> => content[Len(content)] = sep
+    /\ (\A i \in 1..Len(recs) : CountSym(recs[i], sep) = 0) => ReadRecords(content, sep) = [recs |-> recs, rest |-> <<>>]
+FilePhsI(ti) == SelectSeq(ti.ps, LAMBDA pc : pc.type = "ph" /\ pc.ph.kind # "bad" /\ IsFilePh(pc.ph))
+FilesReadBackI(ti, st) == \A k \in 1..Len(FilePhsI(ti)) :
+    LET p == FilePhsI(ti)[k].ph IN RecordsReadBack(FileRecords(p, ti, st), FileContent(p, ti, st), st.sep)
+(* joining and "making sure there is a separator at the end" is not that: the last record loses its terminator when   *)
+(* it is empty or ends with the separator                                                                              *)
+FilesByJoinLoseRecords ==
+    /\ ~RecordsReadBack(<<<<"a">>, <<>>>>, JoinEnsureTrailing(<<<<"a">>, <<>>>>, "LF"), "LF")
+    /\ ~RecordsReadBack(<<<<"a">>, <<>>>>, JoinEnsureTrailing(<<<<"a">>, <<>>>>, "NUL"), "NUL")
+    /\ ~RecordsReadBack(<<<<"a", "LF">>>>, JoinEnsureTrailing(<<<<"a", "LF">>>>, "LF"), "LF")
+    /\ RecordsReadBack(<<<<"a">>, <<>>>>, TerminateEach(<<<<"a">>, <<>>>>, "LF"), "LF")
 (* C12, quoting level: a quoted text is one inert word part in any unquoted context *)
 QuoteReadsBack(s) == ShEval(Quote(s)) = Ok(<<s>>)
 QuoteInsideWord(s) == ShEval(<<"a">> \o Quote(s) \o <<"a">>) = Ok(<<<<"a">> \o s \o <<"a">>>>)
@@ -348,12 +447,73 @@ TmuxReadsBack(args) == ShEval(TmuxArgStr(args)) = Ok(args)
 TmuxExportReadsBack(v) == ShEval(TmuxExportWord(v)) = Ok(<<<<"a">> \o v>>)
 
 -------------------------------------------------------------------------------
+(* 7. The script of the --tmux re-launch (proxy.go runProxy).  fzf writes a script and has tmux run it with sh in   *)
+(* the popup; a popup starts from the environment of the tmux SERVER, so the script brings the environment of the    *)
+(* calling fzf along:  export NAME=<re-quoted value>  for every entry, then the re-launch command line                *)
+(* (TmuxArgStr).  An environment is a sequence of ENTRIES; an entry is any text (execve passes arbitrary strings):     *)
+(* its NAME is what precedes the first "=", its value the rest.  POSIX (XBD 8.1): a shell variable can only be made    *)
+(* from an entry whose name is a shell identifier - [a-zA-Z_][a-zA-Z0-9_]*, the WHOLE name - and so exactly those     *)
+(* entries are exported; the name of every other entry (a-b, a.b, "a;a", "a$(a)", the empty name, ...) is DATA that   *)
+(* must never reach the script.  An entry without "=" has no value and is not a variable.                              *)
+(* Not modelled: TMUX_PANE (deliberately not exported) and BASH_FUNC_name%% entries (exported bash functions, passed   *)
+(* on as function definitions by design) - neither can be written in this alphabet.                                    *)
+LetterSyms == {"a", "q", "n", "s", "r", "f", "e", "x", "p", "o", "t"}
+IdentStart(c) == c \in LetterSyms \cup {"US"}
+IdentChar(c)  == IdentStart(c) \/ c \in DigitSyms
+IsIdentifier(n) == n # <<>> /\ IdentStart(n[1]) /\ \A i \in 2..Len(n) : IdentChar(n[i])
+(* NOT the design - a filter that only looks at how the name begins (ScriptUnsafeByPrefix) *)
+IdentifierPrefix(n) == n # <<>> /\ IdentStart(n[1])
+EqAt(e) == IndexFrom(e, 1, "EQ")
+EntryHasValue(e) == EqAt(e) # 0
+EntryName(e)  == IF EqAt(e) = 0 THEN e ELSE SubSeq(e, 1, EqAt(e) - 1)
+EntryValue(e) == IF EqAt(e) = 0 THEN <<>> ELSE DropN(e, EqAt(e))
+ExportedBy(F(_), e) == EntryHasValue(e) /\ F(EntryName(e))
+Exported(e) == ExportedBy(IsIdentifier, e)
+KwExport == <<"e", "x", "p", "o", "r", "t">>
+ExportLineBy(F(_), e) == IF ExportedBy(F, e)
+                         THEN KwExport \o <<"SP">> \o EntryName(e) \o <<"EQ">> \o EscapeSingleQuote(EntryValue(e)) \o <<"LF">>
+                         ELSE <<>>
+TmuxExportsBy(F(_), env) == Cat([i \in 1..Len(env) |-> ExportLineBy(F, env[i])])
+TmuxExports(env) == TmuxExportsBy(IsIdentifier, env)         \* the part of the script that carries the environment
+
+(* sh reading a script: a command ends at an unquoted newline, its words are lexed as in section 2 (so ; & | $ ( ` ...  *)
+(* outside quotes stop the model: HAZARD - the text would be read as shell syntax).  The only commands the export      *)
+(* part may consist of are  export NAME=value  with NAME an identifier; anything else is "OTHER": another command      *)
+(* runs, or export is given an operand that is not a name (an error of a special built-in: sh gives up on the script). *)
+ScriptStep(ss, c) == IF ss.ls.mode = "U" /\ c = "LF"
+                     THEN [ls |-> LexInit, cmds |-> IF EndWord(ss.ls).words = <<>> THEN ss.cmds
+                                                    ELSE Append(ss.cmds, EndWord(ss.ls).words)]
+                     ELSE [ss EXCEPT !.ls = LexStep(ss.ls, c)]
+IsExportCmd(ws) == /\ Len(ws) = 2 /\ ws[1] = KwExport
+                   /\ EntryHasValue(ws[2]) /\ IsIdentifier(EntryName(ws[2]))
+ScriptEval(s) ==
+    LET fin  == FoldLeft(ScriptStep, [ls |-> LexInit, cmds |-> <<>>], s)
+        last == EndWord(fin.ls).words
+        cmds == IF last = <<>> THEN fin.cmds ELSE Append(fin.cmds, last)
+    IN IF fin.ls.mode = "HAZ" THEN [status |-> "HAZARD", vars |-> <<>>]
+       ELSE IF fin.ls.mode # "U" THEN [status |-> "INCOMPLETE", vars |-> <<>>]
+       ELSE IF \E k \in 1..Len(cmds) : ~IsExportCmd(cmds[k]) THEN [status |-> "OTHER", vars |-> <<>>]
+       ELSE [status |-> "OK", vars |-> [k \in 1..Len(cmds) |-> cmds[k][2]]]      \* the NAME=value texts, in order
+(* C12, re-launch: sh evaluating the export part defines exactly the variables of the entries with an identifier      *)
+(* name, with exactly their values, in order, and runs nothing else - for every environment                            *)
+ScriptSafeBy(F(_), env) == ScriptEval(TmuxExportsBy(F, env)) = [status |-> "OK", vars |-> SelectSeq(env, LAMBDA e : ExportedBy(F, e))]
+ScriptSafe(env) == ScriptSafeBy(IsIdentifier, env)
+(* a filter that accepts every name with a valid beginning lets names through that are shell syntax or no names at all *)
+ScriptUnsafeByPrefix ==
+    /\ ScriptEval(TmuxExportsBy(IdentifierPrefix, <<<<"x", "SEMI", "a", "SP", "f", "SEMI", "q", "EQ", "1">>>>)).status = "HAZARD"
+    /\ ScriptEval(TmuxExportsBy(IdentifierPrefix, <<<<"a", "DOL", "LP", "a", "EQ", "1">>>>)).status = "HAZARD"
+    /\ ScriptEval(TmuxExportsBy(IdentifierPrefix, <<<<"a", "MINUS", "a", "EQ", "1">>>>)).status = "OTHER"
+    /\ ScriptEval(TmuxExportsBy(IdentifierPrefix, <<<<"a", "SP", "a", "EQ", "1">>>>)).status = "OTHER"
+    /\ ScriptSafeBy(IdentifierPrefix, <<<<"a", "1", "US", "EQ", "SQ", "SEMI">>>>)
+
+-------------------------------------------------------------------------------
 (* wire encoding for cases handed to the Go harness: one ASCII character per symbol *)
 Code(c) == CASE c = "SQ" -> "Q" [] c = "DQ" -> "D" [] c = "BSL" -> "B" [] c = "DOL" -> "S" [] c = "BT" -> "T"
              [] c = "SP" -> "_" [] c = "LF" -> "N" [] c = "STAR" -> "X" [] c = "SEMI" -> "C" [] c = "AMP" -> "A"
              [] c = "PIPE" -> "P" [] c = "LP" -> "L" [] c = "LB" -> "O" [] c = "RB" -> "E" [] c = "BANG" -> "G"
              [] c = "HASH" -> "H" [] c = "TILDE" -> "W" [] c = "PLUS" -> "+" [] c = "MINUS" -> "-"
-             [] c = "DOT" -> "." [] c = "COLON" -> ":" [] OTHER -> c      \* letters and digits stand for themselves
+             [] c = "DOT" -> "." [] c = "COLON" -> ":" [] c = "US" -> "u" [] c = "EQ" -> "="
+             [] c = "NUL" -> "Z" [] c = "FILE" -> "F" [] OTHER -> c     \* letters and digits stand for themselves
 Enc(s) == FoldLeft(LAMBDA acc, c : acc \o Code(c), "", s)
 EncAll(ws) == [i \in 1..Len(ws) |-> Enc(ws[i])]
 ================================================================================
